@@ -646,8 +646,12 @@ impl Relations {
     /// Wrap and sort this relations field
     #[must_use]
     pub fn wrap_and_sort(self) -> Self {
+        // an entry without any relation (Entry::new(), or one whose last
+        // alternative was removed) has no text: drop it, like the empty
+        // entries of a parsed field
         let mut entries = self
             .entries()
+            .filter(|e| !e.is_empty())
             .map(|e| e.wrap_and_sort())
             .collect::<Vec<_>>();
         entries.sort();
